@@ -41,9 +41,9 @@ BsConsumed    == \A i \in Items : Len(bshist[i]) = Len(T.bs[i])
 
 CtxPoint ==
     CASE T.timing = "start"     -> g = 0
-      [] T.timing = "quiescent" -> /\ g > 0 /\ Quiescent
-                                   /\ (Running("shrex") => ShrexConsumed)
-                                   /\ (Running("bitswap") => BsConsumed)
+      [] T.timing = "quiescent" -> /\ g > 0
+                                   /\ Running("shrex") => (ShrexConsumed /\ \A i \in Items : pc[i] \in {"wait", "done"})
+                                   /\ Running("bitswap") => BsConsumed
       [] OTHER                  -> TRUE       \* wall clock: anywhere
 
 TraceNext ==
